@@ -41,9 +41,24 @@ def step (st : St) (op impl : List String) : St × List String :=
     let sp : StreamSpec := { id := nat si, unordered := u == "1", relType := nat rt, relVal := nat rv, dir := nat dir }
     if impl == ["nil"] && !(st.streams.any fun x => x.id == sp.id && x.dir == sp.dir) then ({ st with streams := st.streams ++ [sp] }, []) else (st, [])
   | ["rerr", side, si] =>
-    (if impl == ["EOF"] then { st with eofs := (nat side, nat si) :: st.eofs } else st, [])
+    let v := match st.aborter with
+      | some x =>
+        -- a stream the aborting side had already closed ends with EOF, as usual
+        if nat side == 1 - x && !st.abortLost && !st.shutdownOk.contains (nat side) && !st.closes.contains (x, nat si) && !((" ".intercalate impl).splitOn "verif-abort-reason").length ≥ 2 then
+          [s!"[C09] side {side} stream {si}: read failed with `{" ".intercalate impl}` after the peer's Abort; the error does not carry the abort cause"]
+        else []
+      | none => []
+    (if impl == ["EOF"] then { st with eofs := (nat side, nat si) :: st.eofs } else st, v)
+  | ["inject", kind, _side, _at] => ({ st with injected := kind }, [])
+  | ["abortcall", side] => ({ st with aborter := some (nat side) }, [])
+  | ["unblocked"] =>
+    match impl with
+    | r :: t :: _ => (st, if r != "true" then [s!"[C09] API callers are still blocked {t} ms after {st.injected} was injected"] else [])
+    | _ => (st, [])
+  | ["reclose", side] =>
+    (st, if impl.any (fun e => e.startsWith "PANIC") then [s!"[C09] repeated Close on side {side}: {" ".intercalate impl}"] else [])
   | ["close", dir, si] =>
-    ({ st with closes := (nat dir, nat si) :: st.closes }, if impl != ["nil"] then [s!"[C14] Close of stream {si} on side {dir} returned {" ".intercalate impl}"] else [])
+    ({ st with closes := (nat dir, nat si) :: st.closes }, if impl != ["nil"] && st.mode == "reset" then [s!"[C14] Close of stream {si} on side {dir} returned {" ".intercalate impl}"] else [])
   | ["resetdone", c] =>
     match impl with
     | r :: t :: _ => (st, if r != "true" then [s!"[C14] cycle {c}: {t} ms after start the closed streams are still registered: the reset handshake never completed in both directions"] else [])
@@ -60,8 +75,10 @@ def step (st : St) (op impl : List String) : St × List String :=
       if bad then [s!"[C18] write of {len} bytes returned ({" ".intercalate impl})"] else [])
   | ["r", side, si, ppi, len, hash] =>
     ({ st with reads := st.reads.push (nat side, nat si, { ppi := nat ppi, len := nat len, hash := nat hash }) }, [])
-  | ["tx", from_, idx, t, len, _fate] =>
+  | ["tx", from_, idx, t, len, fate] =>
     let f := nat from_
+    -- the ABORT must beat the transport close (100 ms later) for the peer to see the cause: only required when it was delivered at once
+    let st := if fate != "pass" && impl.contains "ABORT" then { st with abortLost := true } else st
     let st := noteTx { st with pkts := st.pkts.insert (f, nat idx) impl } f impl
     let v := (checkTx st f (nat len) impl).toList
     -- a SACK from this side acknowledges whatever it was waiting to acknowledge
@@ -98,7 +115,8 @@ def step (st : St) (op impl : List String) : St × List String :=
   | ["end", side] =>
     let kv := kvs impl
     let v := if st.connFail || st.connected < 2 then [] else
-      if st.mode == "handshake" && getN kv "state" != 3 then
+      if st.mode == "teardown" then []
+      else if st.mode == "handshake" && getN kv "state" != 3 then
         [s!"[C04] side {side} left the established state (state {getN kv "state"}) after stale handshake packets arrived"]
       else if st.mode == "shutdown" then
         (if getN kv "state" != 0 then [s!"[C08] side {side} is in state {getN kv "state"} (not closed) after the shutdown sequence and transport close"] else [])
